@@ -8,7 +8,12 @@ RULE = ("op sequences over one signal<Val>/signal<void> state: spawn listener co
         "copy/drop strong handles, driver pause; issued from ordinary code (sgn_*) and from a coroutine under the ready queue (sgc_*); "
         "boundary programs (0..7 listeners, inline->heap suspend point, last-handle drop with waiters, use after disconnect) + random "
         "disciplined sequences + a small stream of the known coroutine-mode discard overrun + malformed ops; every case closed by dropping "
-        "all handles (and a final pause); non-trivial = some op delivers to >= 2 listeners or cancels a waiting coroutine; distinct = distinct op list")
+        "all handles (and a final pause); non-trivial = some op delivers to >= 2 listeners or cancels a waiting coroutine; distinct = distinct op list. "
+        "part ctl_signal (engine sx_i): controlled schedules of 1-4 subscriber threads (coroutine / blocking .wait() / connect / detached async) against one "
+        "collector thread, yield at asub/apub/rchain/walk/flag wait; random, bursty, last-first schedules, thorough adds every schedule prefix of length 7 over 3 "
+        "choices for 7 configurations; non-trivial = >= 3 thread switches and somebody taken. part stress_signal (engine sg_stress): REAL uncontrolled threads, 2-4 "
+        "subscriber threads subscribing one-shot listeners / one-shot callbacks in a tight loop against one collector thread calling in a tight loop (every third "
+        "round dropping the handle early), ~400k subscriptions per seed in quick, x10 in thorough; oracle on counts: lost = dup = wrong value = order violation = 0")
 SCOPE = ("signal<T>::state/collector::operator() x3/emitter::await_suspend/await_resume/connect (Awt::resume, initial_reg), "
          "awaiter::subscribe/resume_chain/resume_chain_lk, suspend_point destructor/co_await, coro_queue ready queue and pause; "
          "hook_up_emitter is not modelled")
@@ -22,7 +27,7 @@ ENG = ["sgn_i", "sgc_i", "sgn_v", "sgc_v"]
 
 def close_case(c):
     """append: (coroutine driver: pause,) drop every remaining strong handle, then (coroutine driver) one pause so that everything queued has run"""
-    if c.engine == "sx_i":
+    if c.engine in ("sx_i", "sg_stress"):
         return c
     ops = [list(o) for o in c.ops]
     coro, void = c.engine.startswith("sgc"), c.engine.endswith("_v")
@@ -232,6 +237,8 @@ def gen(seed, tier):
 
 
 def nontrivial(case, model_obs):
+    if case.engine == "sg_stress":
+        return any(o and o[0] == 40 and len(o) == 5 and o[1] >= 1000 and o[2] >= 2 for o in case.ops)
     if case.engine == "sx_i":
         # at least 3 thread switches in the executed trace and somebody was taken by an exchange
         tids = [l.split()[0] for l in model_obs if len(l.split()) == 2]
@@ -268,6 +275,8 @@ def signature(case, impl_obs, model_obs):
         return "sg:" + (last.split()[1] if len(last.split()) > 1 else "crash")
     if last in ("HANG", "MISSING"):
         return "sg:" + last
+    if case.engine == "sg_stress":
+        return "ss:counts"
     if case.engine == "sx_i":
         return "sx:deadlock" if any(l.startswith("777") for l in impl_obs) else "sx:oracle"
     if case.engine in ("sgc_i", "sgc_v"):
@@ -321,5 +330,22 @@ def gen_x(seed, tier):
     return cases
 
 
+# ---------------------------------------------------------------- free-running stress (engine sg_stress, harness stress_signal.cpp)
+def gen_stress(seed, tier):
+    """real uncontrolled threads: 2-3 subscriber threads (one-shot coroutine listeners / one-shot callbacks) against one collector
+    thread calling in a tight loop; per case ~100k-180k subscriptions (quick: ~1M in total, a few seconds; thorough x10)"""
+    rng = random.Random(seed * 32452843 + 77)
+    mul = 1 if tier == "quick" else 10
+    cfgs = [(60000, 3, 0, 0), (50000, 3, 2, 0), (60000, 2, 0, 0), (40000, 3, 0, 5), (40000, 2, 3, 0), (40000, 3, 5, 2),
+            (30000, 4, 0, 0), (30000, 4, 6, 1)]
+    cases = []
+    for k, (per, n, mask, j) in enumerate(cfgs):
+        per = per * mul + rng.randint(0, 999)
+        cases.append(Case("sg_stress", "s%d" % k, [[40, min(per, 1000000), n, mask, j]]))
+    cases.append(Case("sg_stress", "sbad", [[40, 0, 3, 0, 0], [41, 5], [40, 10, 9, 0, 0]]))
+    return cases
+
+
 PARTS = [{"name": "vm_signal", "harness": "vm_signal.cpp", "gen": gen},
-         {"name": "ctl_signal", "harness": "ctl_signal.cpp", "gen": gen_x, "timeout_case": 10}]
+         {"name": "stress_signal", "harness": "stress_signal.cpp", "gen": gen_stress, "no_shrink": True, "timeout_case": 180},
+         {"name": "ctl_signal", "harness": "ctl_signal.cpp", "gen": gen_x, "timeout_case": 60}]
